@@ -27,7 +27,8 @@ VARIABLES pc, n, i, inc, out, art, prog
 vars == <<pc, n, i, inc, out, art, prog>>
 
 NoArt == [stpnt |-> <<>>, parnames |-> <<>>, call |-> <<>>, sig |-> <<>>, dfdp |-> <<>>, npar |-> 0, ndim |-> 0,
-          unames |-> <<>>, yinit |-> <<>>, decl |-> <<>>, coef |-> <<>>, y |-> <<>>, dy |-> <<>>, edge |-> <<>>]
+          unames |-> <<>>, yinit |-> <<>>, decl |-> <<>>, coef |-> <<>>, y |-> <<>>, dy |-> <<>>, edge |-> <<>>,
+          x0 |-> <<>>, ystp |-> <<>>]
 
 -----------------------------------------------------------------------------
 (* Layer P: slot allocation loop *)
@@ -103,6 +104,10 @@ ExpDy(a, r) == - a.y[r]
                + SumSeq([e \in 1..Len(a.edge) |-> IF a.edge[e].row = r THEN a.edge[e].w * a.y[a.edge[e].src] ELSE 0])
 FieldIsModelField(a) == Len(a.dy) = Len(a.y) /\ \A r \in 1..Len(a.y) : a.dy[r] = ExpDy(a, r)
 
+(* STPNT loads the model's initial state: component r of the state FUNC reads (the layout FieldIsModelField pins down)
+   starts at the declared initial value of state variable r; a.ystp is what the compiled STPNT wrote into U *)
+StpntStateIsInitialState(a) == a.ystp = a.x0
+
 Preds == <<"SlotsInjective", "SlotsAvoidReserved", "StpntHoldsValues", "SlotsFollowDeclarationOrder", "ParnamesAgree",
            "CallAgrees", "DfdpAgrees", "NparIsMaxSlot">>
 Holds(a, p) == CASE p = "SlotsInjective" -> SlotsInjective(a)
@@ -115,6 +120,7 @@ Holds(a, p) == CASE p = "SlotsInjective" -> SlotsInjective(a)
                  [] p = "NparIsMaxSlot" -> NparIsMaxSlot(a)
                  [] p = "NdimMatches" -> NdimMatches(a)
                  [] p = "FieldIsModelField" -> FieldIsModelField(a)
+                 [] p = "StpntStateIsInitialState" -> StpntStateIsInitialState(a)
 Violated(a, ps) == {p \in {ps[k] : k \in 1..Len(ps)} : ~Holds(a, p)}
 
 (* design invariants: the artefacts P builds satisfy M for every n *)
